@@ -61,6 +61,19 @@ def count_tests(prog: Program, module_filter=None) -> int:
     return n
 
 
+def _outer_def(m, node):
+    import ast as _ast
+    for top in m.tree.body:
+        for n in _ast.walk(top):
+            if n is node:
+                if isinstance(top, _ast.ClassDef):
+                    for sub in top.body:
+                        if any(x is node for x in _ast.walk(sub)):
+                            return f"{top.name}.{getattr(sub, 'name', '?')}"
+                return getattr(top, "name", "?")
+    return "?"
+
+
 def rule_truthy(prog, rep, R, module_filter=None):
     rep.rule(R, "no truthiness test on a shape-valued expression (shape / cond_shape): () is a valid scalar shape and "
                 "is falsy, so `if cond_shape` treats a scalar condition as 'unconditional'; None-ness must be tested "
@@ -68,7 +81,7 @@ def rule_truthy(prog, rep, R, module_filter=None):
     hits = list(shape_truthiness(prog, module_filter))
     seen = set()
     for m, fname, node, src in hits:
-        k = f"{m.name}.{fname}:truthiness({src})"
+        k = f"{m.name}:truthiness({src})@{_outer_def(m, node)}"
         if k in seen:
             continue
         seen.add(k)
